@@ -717,6 +717,8 @@ struct Runner
     } else if (a.name == "GeneratePrimaries") {
       o = observed_call([&](G4Event & ev) { act->GeneratePrimaries(&ev); }, false);
       n_generate++;
+    } else if (a.name == "TouchGun") {
+      o = observed_call([&](G4Event &) { act->GetParticleGun()->SetNumberOfParticles(2); }, false);
     } else if (a.name == "SetVertexGenerator") {
       bxdecay0_g4::VertexGeneratorInterface * g = make_vg(a.a1);
       if (a.a2 == "1") {
